@@ -77,6 +77,7 @@ type Enc struct {
 	checkSafe bool
 	axSt      *State
 	immut     map[string]bool
+	allocRefs []Term
 	frameChk  func(fr *Frame, what string, ref Term, st *State, rb Term, pos token.Pos)
 }
 
@@ -116,6 +117,7 @@ func (w *World) NewEnc() *Enc {
 	e := &Enc{w: w, sorts: st, sc: NewScript(st), comps: &Comps{sorts: map[string]string{}},
 		immut: map[string]bool{}, inlined: map[string]bool{}, trusted: map[string]bool{}, havocked: map[string]bool{}, effFree: map[string]bool{}, unsupp: map[string]bool{}, logs: map[string]bool{}}
 	e.comps.Register("$alloc", "(Array Int Bool)")
+	e.comps.Register("$priv", "(Array Int Bool)")
 	return e
 }
 
@@ -563,7 +565,7 @@ func (e *Enc) execFunc(fr *Frame, st *State, reach Term) ([]Val, *State, Term) {
 			// 2. havoc
 			body := loopBody(b)
 			mod := e.loopModSet(fr, body)
-			cur = e.Havoc(cur, mod)
+			cur = e.HavocLoop(cur, mod)
 			for _, in := range b.Instrs {
 				if phi, ok := in.(*ssa.Phi); ok {
 					nv := e.freshVal("loop_"+phi.Name(), phi.Type())
@@ -817,11 +819,68 @@ func (e *Enc) assumeAllocated(v Val, st *State) {
 	if v.Typ == nil || v.Addr != nil {
 		return
 	}
+	refs := e.refsOf(v, nil, 0)
+	if len(refs) == 0 {
+		return
+	}
 	al := e.Get(st, "$alloc")
-	switch v.Typ.Underlying().(type) {
+	for _, r := range refs {
+		e.sc.Assert(implies("(not (= "+r+" 0))", "(select "+al+" "+r+")"))
+	}
+}
+
+// refsOf collects the reference terms contained in a value (for leak tracking).
+func (e *Enc) refsOf(v Val, out []Term, depth int) []Term {
+	if depth > 4 || v.Typ == nil {
+		return out
+	}
+	if v.Tuple != nil {
+		for _, x := range v.Tuple {
+			out = e.refsOf(x, out, depth+1)
+		}
+		return out
+	}
+	if v.Clo != nil {
+		for _, b := range v.Clo.Bind {
+			out = e.refsOf(b, out, depth+1)
+		}
+		return out
+	}
+	if v.Addr != nil {
+		if v.Addr.Ref != "" {
+			out = append(out, v.Addr.Ref)
+		}
+		return out
+	}
+	switch u := v.Typ.Underlying().(type) {
 	case *types.Pointer, *types.Map, *types.Chan:
-		e.sc.Assert(implies("(not (= "+v.T+" 0))", "(select "+al+" "+v.T+")"))
+		out = append(out, v.T)
 	case *types.Slice:
-		e.sc.Assert(implies("(not (= (sl_ref "+v.T+") 0))", "(select "+al+" (sl_ref "+v.T+"))"))
+		out = append(out, "(sl_ref "+v.T+")")
+	case *types.Interface:
+		out = append(out, "(if_pay "+v.T+")")
+	case *types.Struct:
+		name := e.sortOf(v.Typ)
+		for i := 0; i < u.NumFields(); i++ {
+			ft := u.Field(i).Type()
+			if pureValueType(ft, 0) {
+				continue
+			}
+			out = e.refsOf(Val{T: app(e.sorts.FieldSel(name, u, i), v.T), Typ: ft}, out, depth+1)
+		}
+	}
+	return out
+}
+
+// assumeNotPrivate: references read from the heap (or returned by a callee) are never private,
+// because a reference stops being private the moment it is stored or passed out.
+func (e *Enc) assumeNotPrivate(v Val, st *State) {
+	refs := e.refsOf(v, nil, 0)
+	if len(refs) == 0 {
+		return
+	}
+	p := e.Get(st, "$priv")
+	for _, r := range refs {
+		e.sc.Assert(not(app("select", p, r)))
 	}
 }
